@@ -42,3 +42,15 @@ type Entry struct {
 	HasStack bool // captures a stack
 	Call     Fn
 }
+
+// Deep calls f with n additional frames of recursion on the goroutine's stack
+// (stack capture must not depend on how deep the caller sits).
+//
+//go:noinline
+func Deep(n int, f func()) {
+	if n <= 0 {
+		f()
+		return
+	}
+	Deep(n-1, f)
+}
